@@ -258,6 +258,14 @@ def check_reads(store, model, universe, last_op=None, fresh_store_keys=(), stric
                     bad("get_bytes", k, "bytes_served_for_a_key_without_data", repr(got)[:60])
             except Exception:
                 pass
+            # ... and that the store agrees with itself on whether the key is there (containment vs key listing)
+            try:
+                c = bool(store.contains(k))
+                listed = k in set(x for x in store.keys() if x is not None)
+                if c != listed:
+                    bad("contains", k, "disagrees_with_key_listing", "contains %r, listed %r (key with metadata but no data)" % (c, listed))
+            except Exception:
+                pass
             continue
         exp_exists, exp_dir = model.exists(k), model.is_dir(k)
         # contains
